@@ -21,3 +21,26 @@ fn having_with_aggregate_does_not_kill_the_worker() {
         Ok(Ok(())) => {}
     }
 }
+
+#[test]
+fn subquery_expressions_do_not_kill_the_worker() {
+    let dir = tempfile::TempDir::new().unwrap();
+    let db = Database::create(dir.path().join("t.db"), DBConfig::default()).unwrap();
+    db.execute("CREATE TABLE t (id BIGINT, v INT)").unwrap();
+    db.execute("CREATE TABLE e (id BIGINT, v INT)").unwrap();
+    db.execute("INSERT INTO t VALUES (1, 10)").unwrap();
+    db.execute("INSERT INTO e VALUES (1, 10)").unwrap();
+    for q in ["SELECT * FROM t WHERE EXISTS (SELECT 1 FROM e)", "SELECT * FROM t WHERE v IN (SELECT v FROM e)", "SELECT (SELECT 1) FROM t",
+              "SELECT * FROM t WHERE NOT EXISTS (SELECT 1 FROM e)", "SELECT * FROM t WHERE v NOT IN (SELECT v FROM e)"] {
+        let r = std::panic::catch_unwind(std::panic::AssertUnwindSafe(|| db.execute(q).map(|_| ())));
+        match r {
+            Err(_) => panic!("`{q}` panicked in the caller"),
+            Ok(Err(e)) => {
+                let m = format!("{}", e);
+                assert!(!m.contains("channel closed") && !m.contains("panicked"), "`{q}` killed the worker: {m}");
+            }
+            Ok(Ok(())) => {}
+        }
+    }
+    assert!(db.execute("SELECT * FROM t").is_ok(), "the database is unusable after the subquery statements");
+}
